@@ -37,5 +37,7 @@ PROPS["C10"] = dict(
                 "action:med:replace", "action:med:add", "action:med:sub", "action:local-pref", "action:origin", "action:as-path-prepend:asn",
                 "action:as-path-prepend:last-as", "action:next-hop:address", "action:next-hop:self", "action:next-hop:unchanged", "action:next-hop:peer-address"],
     units=[dict(name="table", harness="t_table", files=["common_", "c10_"], run="TestVerifC10",
+                shards=dict(quick=16, thorough=16), timeout_s=dict(quick=900, thorough=7200)),
+           dict(name="e2e", harness="t_server", files=["sim_", "e2e_"], run="TestVerifE2E_C10",
                 shards=dict(quick=16, thorough=16), timeout_s=dict(quick=900, thorough=7200))],
 )
